@@ -255,6 +255,13 @@ def check_pus(case):
         else:
             o_r.calc_crc()
             eq(devs, "after_refused.calc_crc_then_pack_without_recalc", bytes(o_r.pack(recalc_crc=False)), want)
+    # the two public helpers that write a trailer into raw octets: a trailer overwritten with anything is restored; a trailer appended to
+    # the octets before it gives the packet
+    scrambled = bytearray(want)
+    scrambled[-2] ^= 0x5A
+    scrambled[-1] ^= 0xA5
+    eq(devs, "helpers.generate_packet_crc", bytes(tcm.generate_packet_crc(scrambled)), want)
+    eq(devs, "helpers.generate_crc", bytes(tcm.generate_crc(bytearray(want[:-2]))), want)
     eq(devs, "clean.bytes", raw, want)
     eq(devs, "clean.trailer", raw[-2:], crc_bytes(raw[:-2]), "trailer vs reference CRC of all preceding octets")
     dec[0][1](raw)  # uncorrupted packet must be accepted (an exception here is reported by the engine)
